@@ -874,6 +874,18 @@ func runDeepHistory(seed uint64, idx int) (in sx.V, out sx.V, tags []string) {
 }
 
 func suiteLoop(c *Ctx) {
+	for i := range scripts {
+		if !c.Begin("script", i) {
+			continue
+		}
+		var in, out sx.V
+		var tags []string
+		in, out, tags = guarded(func() (sx.V, sx.V, []string) { return runScripted(i) })
+		if in == nil {
+			break
+		}
+		c.Emit("loop", in, out, tags...)
+	}
 	topoN := 60
 	if !c.Quick() {
 		topoN = 1500
